@@ -1,7 +1,8 @@
 /-
 Model of declared-output-hash verification (C35), core Lean only.
 
-  src/core/build_target.go:1378   UnprefixedHashes        → `unprefix`, `unprefixedHashes` (incl. the in-place aliasing)
+  src/core/build_target.go:1378   UnprefixedHashes        → `unprefix`, `unprefixedHashes` (the in-place aliasing the function had
+                                                            until fix 656076b is kept as the fact `alias`)
   src/build/build_step.go:929     checkRuleHashes         → `checkRuleHashes`
   src/build/build_step.go:962     checkRuleHashesOfType   → `checkOfType`
   src/build/build_step.go:893/903 targetHasher.outputHash / outputHash → `targetOutputHash` / `outputHash`
@@ -46,10 +47,11 @@ def afterFirstColon : Str → Option Str
 structure UFacts where
   lastColon : Bool      -- strings.LastIndexByte (true) / strings.IndexByte (false)
   trim      : Bool      -- strings.TrimSpace around the suffix
-  alias     : Bool      -- `hashes := target.Hashes[:]` + `hashes[i] = …` : the target's own list is overwritten
+  alias     : Bool      -- true: `hashes := target.Hashes[:]` + `hashes[i] = …` (the target's own list is overwritten, as it was
+                        -- before fix 656076b); false: the function works on a copy (`slices.Clone(target.Hashes)`)
 deriving DecidableEq, Repr
 
-def UFacts.asCoded : UFacts := ⟨true, true, true⟩
+def UFacts.asCoded : UFacts := ⟨true, true, false⟩
 
 def unprefix (f : UFacts) (h : Str) : Str :=
   match (if f.lastColon then afterLastColon h else afterFirstColon h) with
@@ -139,7 +141,8 @@ def Verdict.isOk : Verdict → Bool
   | .bad _ _ => false
 
 /-- `checkRuleHashes(state, target, hash)`: returns the verdict and `target.Hashes` after the call.
-    The error message prints `target.Hashes`, i.e. (because of the aliasing) the unprefixed values. -/
+    The error message prints `target.Hashes`: the declared values as written — or, with the aliasing fact on, the
+    unprefixed values. -/
 def checkRuleHashes (uf : UFacts) (cf : CFacts) (env : Env O D) (hashes : List Str) (outs : List O) (hash : D)
     (checkers : List Algo) : Verdict × List Str :=
   if hashes.isEmpty then (.ok, hashes) else
